@@ -101,12 +101,14 @@ def core : Core TlruState where
   insert1 s now k v a ttl := insert1 s now k v a (now + ttl * msNs)
   find1 := find1
   erase1 := erase1
+  hasClear := false
   clear s := s
   clean := clean
   age s _ := (s, 0)
   updateTtl s _ := s
   size s := s.ents.length
   capacity s := s.cap
+  dlOf _ now ttl := now + ttl * msNs
   look := look
 
 def init (cap : Nat) : TlruState := { cap, ttl := 0, ents := [], tq := [] }
@@ -121,12 +123,14 @@ def core : Core TlruState where
   insert1 s now k v a _ := Tlru.insert1 s now k v a (now + s.ttl)
   find1 := Tlru.find1
   erase1 := Tlru.erase1
+  hasClear := true
   clear s := { s with ents := [], tq := [] }
   clean := Tlru.clean
   age s _ := (s, 0)
   updateTtl s t := { s with ttl := t * msNs }
   size s := s.ents.length
   capacity s := s.cap
+  dlOf s now _ := now + s.ttl
   look := Tlru.look
 
 def init (cap ttlMs : Nat) : TlruState := { cap, ttl := ttlMs * msNs, ents := [], tq := [] }
@@ -169,12 +173,14 @@ def core : Core UtMapState where
   insert1 s now k v a _ := insert1 s now k v a
   find1 s _ k _ := find1 s k
   erase1 := erase1
+  hasClear := true
   clear s := { s with tq := [] }
   clean s now := ({ s with tq := purge s.tq now }, purged s.tq now)
   age s _ := (s, 0)
   updateTtl s _ := s
   size s := s.tq.length
   capacity _ := 0
+  dlOf s now _ := now + s.ttl
   look s now k := (getE (purge s.tq now) k).map (fun e => (e.val, 0))
 
 def init (ttlMs : Nat) : UtMapState := { ttl := ttlMs * msNs, tq := [] }
